@@ -236,6 +236,11 @@ namespace bluetoe
                     return state_ == idle;
                 }
 
+                bool is_flashing() const
+                {
+                    return state_ == flashing;
+                }
+
                 std::uint16_t consecutive() const
                 {
                     return consecutive_;
@@ -558,7 +563,13 @@ namespace bluetoe
 
                 std::uint8_t bootloader_progress_data( std::size_t read_size, std::uint8_t* out_buffer, std::size_t& out_size )
                 {
-                    buffers_[used_buffer_].free();
+                    // the end of a flash operation that belongs to a procedure that was stopped or restarted meanwhile,
+                    // must not free a buffer that is filled by the current procedure
+                    const bool flashed = buffers_[used_buffer_].is_flashing();
+
+                    if ( flashed )
+                        buffers_[used_buffer_].free();
+
                     out_size = 7;
                     assert( read_size >= out_size );
 
@@ -569,7 +580,8 @@ namespace bluetoe
                     *out_buffer = read_size + 3;
                     ++out_buffer;
 
-                    used_buffer_ = ( used_buffer_ + 1 ) % number_of_concurrent_flashs;
+                    if ( flashed )
+                        used_buffer_ = ( used_buffer_ + 1 ) % number_of_concurrent_flashs;
 
                     return bluetoe::error_codes::success;
                 }
